@@ -68,6 +68,7 @@ def run(ctx):
         ('G-exec-over', 100, 1500, dict(overcommit=True)),
         ('G-exec-long', 10, 150, dict(max_ticks=400, p_bad=0.0)),
         ('G-exec-twins', 80, 1200, dict(twins=True)),
+        ('G-exec-overlap', 40, 600, dict(overlap=True)),
         ('G-exec-oversell', 80, 1200, dict(p_bad=1.0, bad_kinds=['asg-cpu+1', 'asg-ram+'], bad_early=True)),
     ], nontrivial=lambda run: any(e.get('new') for e in run.trace))
     out['rule'] = ('state-aware command fuzzer over Executor (1-3 pools, CPUs 1-16, RAM 0.5..256, overcommit on/off, both '
